@@ -195,7 +195,10 @@ def run_real(case):
           # threads listed in case['short'] bring a timeout that runs out while another thread is mid-message
           ms = case.get('short_ms', 25) if i in (case.get('short') or []) else 60000
           if mode == 'write':
-            ad.write_message(am.AdbMessage('WRTE', i, k, 'p' * (i + 1)), timeouts.PolledTimeout.from_millis(ms))
+            # (odd threads of 'acks' cases send header-only messages, as the OKAY acknowledgements are)
+            empty = case.get('acks') and i % 2 == 1
+            ad.write_message(am.AdbMessage('OKAY' if empty else 'WRTE', i, k, '' if empty else 'p' * (i + 1)),
+                             timeouts.PolledTimeout.from_millis(ms))
           else:
             m = ad.read_message(timeouts.PolledTimeout.from_millis(ms))
             results.setdefault(i, []).append(len(m.data))
@@ -344,6 +347,9 @@ def gen_cases(rng, tier):
     for s in scheds if tier == 'thorough' else scheds[::2] + [[0, 1, 0, 1], [1, 0, 1, 0]]:
       cases.append({'kind': 'L', 'mode': mode, 'threads': max(s) + 1 if max(s) > 0 else 2, 'schedule': s,
                     'msgs': 2 if sum(s) % 2 else 1})
+  # a writer with a payload next to writers of header-only messages (acknowledgements)
+  for s in ([0, 1, 0, 1], [0, 1, 1, 0], [1, 0, 1, 0], [0, 1, 2, 0], [1, 0, 0, 1], [0, 0, 1, 1], [1, 1, 0, 0], [2, 1, 0, 1]):
+    cases.append({'kind': 'L', 'mode': 'write', 'threads': max(s) + 1, 'schedule': s, 'msgs': 1, 'acks': True})
   # a thread whose timeout runs out while it waits for the lock held by a thread that is between header and payload
   # (the controller waits 0.12 s for the thread it wants next, longer than the short timeout)
   for mode in ('write', 'read'):
